@@ -1,15 +1,38 @@
 ------------------------------- MODULE IceGen -------------------------------
-(* Behaviour export for Ice (transition tour): every transition TLC         *)
-(* generates writes the path to its source state plus the step, and whether *)
-(* the step left the component's state unchanged (`loop`).  lib/props/C15.py*)
-(* packs all no-effect steps of one state into one behaviour (they are      *)
-(* self-loops of the model, so the packed sequence is a behaviour of Ice)   *)
-(* and keeps the maximal ones of the rest.                                  *)
+(* Behaviour export for Ice (transition tour).                              *)
+(*                                                                          *)
+(* Every transition TLC generates that changes the component's state writes *)
+(* the path to its source state plus the step, the identities of source and *)
+(* target state and whether a timer tick is pending in the target.  Steps   *)
+(* that leave the state unchanged are self-loops; apart from the actions    *)
+(* exported here they are exactly the datagrams of the alphabet `Datagrams` *)
+(* (Recv(d) is enabled for every d in every state), so they are not written *)
+(* one by one: the alphabet is exported once and lib/props/C15.py derives   *)
+(* the self-loops of a state as alphabet minus the exported datagram steps  *)
+(* out of that state, and packs them into one behaviour behind the shortest *)
+(* path to the state (they are self-loops of the model, so the packed       *)
+(* sequence is a behaviour of Ice).                                         *)
 EXTENDS Ice, Json, CSV, IOUtils
 
 \* replayable schedules: a pending timer tick is taken before any other step
 Urgent == TickPending => Last.a = "Tick"
 
+Sid(v) == ToString(v)
+
+\* The bounds are applied here, after the transition has been written (`over`), and not as a state
+\* CONSTRAINT: TLC does not evaluate action constraints on transitions into states outside a CONSTRAINT, and
+\* a state-changing step that is not exported would be taken for a self-loop.
+InBounds == Len(hist') <= MaxHist /\ ntx' <= MaxTx
+
 EmitBehaviour ==
-    Urgent /\ CSVWrite("%1$s", <<ToJson([ctl |-> ctl', loop |-> (mvars' = mvars), steps |-> hist'])>>, IOEnv.QXV_GEN)
+    /\ Urgent
+    /\ IF mvars' = mvars THEN TRUE
+       ELSE CSVWrite("%1$s", <<ToJson([ctl |-> ctl', from |-> Sid(mvars), to |-> Sid(mvars'),
+                                       pend |-> TickPendingOf(started', active', remoteSet', pairs', ord'),
+                                       over |-> ~InBounds, steps |-> hist'])>>, IOEnv.QXV_GEN)
+    /\ InBounds
+    \* the alphabet, once per role
+    /\ IF Len(hist) = 0 /\ Last.a = "SetRemote"
+       THEN CSVWrite("%1$s", <<ToJson([alphabet |-> Datagrams, ctl |-> ctl'])>>, IOEnv.QXV_GEN)
+       ELSE TRUE
 =============================================================================
